@@ -276,6 +276,22 @@ TEXTUAL = [
     ("C02", "tensordot-free-modes2-exclude-modes1", "tensorly/tenalg/core_tenalg/_batched_tensordot.py", "if i not in batch_modes2 + modes2]", "if i not in batch_modes2 + modes1]"),
     ("C02", "tensordot-transpose2-with-axes1", "tensorly/tenalg/core_tenalg/_batched_tensordot.py", "tl.transpose(tensor2, batch_modes2 + modes2 + new_modes2)", "tl.transpose(tensor2, batch_modes2 + modes2 + new_modes1)"),
     ("C02", "einsum-tensordot-remaining2-exclude-modes1", "tensorly/tenalg/einsum_tenalg/_batched_tensordot.py", "if i not in modes2 + batch_modes2", "if i not in modes1 + batch_modes2"),
+    ("C01", "partial-fold-remove-by-value", "tensorly/base.py", "    mode_dim = transposed_shape.pop(skip_begin + mode)", "    mode_dim = shape[skip_begin + mode]\n    transposed_shape.remove(mode_dim)"),
+    ("C17", "enter-inside-try", "tensorly/backend/__init__.py", "        cls.set_backend(backend, local_threadsafe=local_threadsafe)\n        try:\n            yield", "        try:\n            cls.set_backend(backend, local_threadsafe=local_threadsafe)\n            yield"),
+    ("C03", "parafac2-orthonormality-one-sided", "tensorly/parafac2_tensor.py", "if T.max(T.abs(inner_product - T.eye(rank, **T.context(inner_product)))) > 1e-5:", "if T.max(inner_product - T.eye(rank, **T.context(inner_product))) > 1e-5:"),
+    ("C04", "cp-normalize-scale-not-moved-to-weights", "tensorly/cp_tensor.py", "        weights = weights * scales\n        normalized_factors.append(factor / T.reshape(scales_non_zero, (1, -1)))", "        normalized_factors.append(factor / T.reshape(scales_non_zero, (1, -1)))"),
+    ("C04", "cp-normalize-factor-not-divided", "tensorly/cp_tensor.py", "        normalized_factors.append(factor / T.reshape(scales_non_zero, (1, -1)))\n\n    return CPTensor((weights, normalized_factors))", "        normalized_factors.append(factor)\n\n    return CPTensor((weights, normalized_factors))"),
+    ("C04", "cp-normalize-weights-dropped", "tensorly/cp_tensor.py", "            factor = factor * weights\n            weights = T.ones(rank, **T.context(factor))", "            weights = T.ones(rank, **T.context(factor))"),
+    ("C04", "cp-normalize-squared-scale", "tensorly/cp_tensor.py", "        weights = weights * scales\n        normalized_factors.append(factor / T.reshape(scales_non_zero, (1, -1)))", "        weights = weights * scales * scales\n        normalized_factors.append(factor / T.reshape(scales_non_zero, (1, -1)))"),
+    ("C04", "tucker-normalize-core-not-scaled", "tensorly/tucker_tensor.py", "        core = core * tl.reshape(\n            scales, (1,) * i + (-1,) + (1,) * (tl.ndim(core) - i - 1)\n        )\n", ""),
+    ("C04", "parafac2-normalise-weights-dropped", "tensorly/parafac2_tensor.py", "        if weights is not None:\n            factors[0] = factors[0] * weights\n        weights = T.ones(rank, **T.context(factors[0]))", "        weights = T.ones(rank, **T.context(factors[0]))"),
+    ("C04", "parafac2-normalise-scale-not-accumulated", "tensorly/parafac2_tensor.py", "        weights = weights * scales\n        scales_non_zero = T.where(\n            scales == 0, T.ones(T.shape(scales), **T.context(factors[0])), scales\n        )", "        weights = scales\n        scales_non_zero = T.where(\n            scales == 0, T.ones(T.shape(scales), **T.context(factors[0])), scales\n        )"),
+    ("C04", "flip-sign-one-sided", "tensorly/cp_tensor.py", "        factors[jj] = factors[jj] * column_signs[np.newaxis, :]\n", ""),
+    ("C04", "flip-sign-weights-sign-lost", "tensorly/cp_tensor.py", "    factors[mode] = factors[mode] * weight_signs[np.newaxis, :]\n    weights = T.abs(weights)", "    weights = T.abs(weights)"),
+    ("C04", "flip-sign-zero-sign-unguarded", "tensorly/cp_tensor.py", "        column_signs = T.where(\n            column_signs == 0,\n            T.ones(T.shape(column_signs), **T.context(column_signs)),\n            column_signs,\n        )\n", ""),
+    ("C04", "cp-mode-dot-contract-overwrites", "tensorly/cp_tensor.py", "        factors[mode] *= factor\n", "        factors[mode] = factor\n"),
+    ("C04", "cp-mode-dot-operand-dropped", "tensorly/cp_tensor.py", "        factors[mode] = T.dot(matrix_or_vector, factors[mode])\n\n    if copy:", "        factors[mode] = T.dot(T.transpose(factors[mode]), factors[mode])\n\n    if copy:"),
+    ("C04", "tucker-mode-dot-contract-drops-operand", "tensorly/tucker_tensor.py", "        core = mode_dot(core, tl.dot(matrix_or_vector, f), mode=mode)", "        core = mode_dot(core, tl.sum(f, axis=0), mode=mode)"),
     ("C03", "cp-ctor-skips-validation", "tensorly/cp_tensor.py", "        shape, rank = _validate_cp_tensor(cp_tensor)\n        weights, factors = cp_tensor\n", "        weights, factors = cp_tensor\n        shape, rank = tuple(f.shape[0] for f in factors), factors[0].shape[1]\n"),
     ("C03", "tt-vec-of-other-family", "tensorly/tt_tensor.py", "    return tl.tensor_to_vec(tt_to_tensor(factors))", "    return tl.tensor_to_vec(tt_to_tensor(factors[::-1]))"),
     ("C03", "tucker-unfolded-wrong-mode", "tensorly/tucker_tensor.py", "        mode,\n    )", "        mode + 1,\n    )"),
@@ -362,8 +378,40 @@ def gen_textual() -> List[Variant]:
     return out
 
 
+TEXTUAL_TWINS = [
+    # behaviour-preserving rewrites: the check must stay silent
+    ("C03", "parafac2-orthonormality-by-norm", "tensorly/parafac2_tensor.py", "if T.max(T.abs(inner_product - T.eye(rank, **T.context(inner_product)))) > 1e-5:", "if T.norm(inner_product - T.eye(rank, **T.context(inner_product))) > 1e-5:"),
+    ("C03", "parafac2-orthonormality-local-abs", "tensorly/parafac2_tensor.py", "        if T.max(T.abs(inner_product - T.eye(rank, **T.context(inner_product)))) > 1e-5:", "        deviation = T.abs(inner_product - T.eye(rank, **T.context(inner_product)))\n        if T.max(deviation) > 1e-5:"),
+    ("C02", "contraction-modes-normalised-by-comprehension", "tensorly/tenalg/tenalg_utils.py", "        if modes1[i] < 0:\n            modes1[i] += ndim1\n        if modes2[i] < 0:\n            modes2[i] += ndim2\n", "        pass\n    modes1 = [m + ndim1 if m < 0 else m for m in modes1]\n    modes2 = [m % ndim2 for m in modes2]\n"),
+    ("C02", "einsum-tensordot-letter-offset", "tensorly/tenalg/einsum_tenalg/_batched_tensordot.py", "chr(start + i + order_t1)", "chr(start + (i + order_t1))"),
+    ("C17", "context-flag-guarded-restore", "tensorly/backend/__init__.py", "        cls.set_backend(backend, local_threadsafe=local_threadsafe)\n        try:\n            yield\n        finally:\n            cls.set_backend(_old_backend, local_threadsafe=local_threadsafe)", "        entered = False\n        try:\n            cls.set_backend(backend, local_threadsafe=local_threadsafe)\n            entered = True\n            yield\n        finally:\n            if entered:\n                cls.set_backend(_old_backend, local_threadsafe=local_threadsafe)"),
+    ("C04", "cp-normalize-commuted-product", "tensorly/cp_tensor.py", "        weights = weights * scales\n        normalized_factors", "        weights = scales * weights\n        normalized_factors"),
+    ("C04", "tucker-normalize-scale-first", "tensorly/tucker_tensor.py", "        normalized_factors.append(factor / tl.reshape(scales_non_zero, (1, -1)))", "        unit_factor = factor / tl.reshape(scales_non_zero, (1, -1))\n        normalized_factors.append(unit_factor)"),
+    ("C04", "flip-sign-guard-on-receiving-factor-too", "tensorly/cp_tensor.py", "    weight_signs = T.sign(weights)\n", "    weight_signs = T.sign(weights)\n    weight_signs = T.where(weight_signs == 0, T.ones(T.shape(weight_signs), **T.context(weight_signs)), weight_signs)\n"),
+    ("C01", "partial-fold-del-by-position", "tensorly/base.py", "    mode_dim = transposed_shape.pop(skip_begin + mode)", "    mode_dim = transposed_shape.pop(skip_begin + mode)\n    _n_axes = len(transposed_shape)"),
+]
+
+
+def gen_textual_twins() -> List[Variant]:
+    out = []
+    for prop, vid, rel, old, new in TEXTUAL_TWINS:
+        s = _read(rel)
+        full = f"{prop}:twin-text:{vid}"
+        if s.count(old) != 1:
+            out.append(Variant(prop, full, "stale", {}, f"anchor text occurs {s.count(old)} times in {rel}"))
+            continue
+        t = s.replace(old, new)
+        try:
+            compile(t, rel, "exec", dont_inherit=True)
+        except SyntaxError as e:
+            out.append(Variant(prop, full, "stale", {}, f"twin does not compile: {e}"))
+            continue
+        out.append(Variant(prop, full, "twin", {rel: t}, vid))
+    return out
+
+
 def all_variants() -> List[Variant]:
-    return gen_textual() + gen_generic()
+    return gen_textual() + gen_textual_twins() + gen_generic()
 
 
 # ---------------------------------------------------------------------------------
